@@ -23,6 +23,9 @@ Preds(e) ==
         /\ \A i \in 1..Len(e.alloc) : \A j \in 1..Len(e.chans) : e.chans[j].id # e.alloc[i]),
    P("C18", "ParityAlloc", ids /\ Len(e.alloc) > 0 /\ e.role \in {"client", "server"},
         \A i \in 1..Len(e.alloc) : e.alloc[i] % 2 = (IF e.role = "client" THEN 0 ELSE 1) /\ e.alloc[i] # 65535),
+   \* openRace: both opening paths ran on one channel at once; raceIds = the different ids the channel was seen
+   \* with meanwhile, taken = how many ids the allocator handed out for it
+   P("C18", "OneIdPerChannel", ids /\ e.race, Len(e.raceIds) <= 1 /\ e.taken = 1),
    P("C18", "IdStable", ids,
         \A i \in 1..Len(e.chans) : \A x \in seen : (x[1] = e.who /\ x[2] = e.chans[i].k) => x[3] = e.chans[i].id)
   }
